@@ -133,6 +133,39 @@ def code_tables(prog, rep, rule="code-tables"):
         else:
             rep.fail(rule, bt.module.path.name, "BlockType", bt.assigns.get(v.attr, bt.node), f"{cname} blocks are recorded with type code {got} (BlockType.{v.attr}); the TDF format identifies them by {code}: other readers do not find / mis-dispatch the block",
                      construct=f"BlockType code of {cname}")
+    # the enum covers the whole code space, one member per code: TdfEntry._build maps the stored code through BlockType(..), which
+    # raises for a code without a member - a file that merely CONTAINS a block of that type could not be opened - and two members
+    # with one value are aliases (the second type is recorded and found as the first)
+    from ..reference_layout import ALL_TYPE_CODES
+    vals = sorted(members.values(), key=repr)
+    n += 1
+    missing = [c_ for c_ in ALL_TYPE_CODES if c_ not in members.values()]
+    dup = sorted({v_ for v_ in members.values() if list(members.values()).count(v_) > 1}, key=repr)
+    if missing or dup:
+        rep.fail(rule, bt.module.path.name, "BlockType", bt.node, (f"type code(s) {missing} have no BlockType member: a file containing such a block cannot be opened (BlockType(code) raises); " if missing else "")
+                 + (f"code(s) {dup} are shared by two members (aliases): blocks of the second type are recorded and looked up as the first" if dup else ""),
+                 construct="BlockType covers codes 0..16 once")
+    else:
+        rep.ok(rule, f"BlockType has exactly one member for each of the {len(ALL_TYPE_CODES)} type codes of the format", nontrivial=True)
+    # every code enumeration of the package (block formats, distortion models, event kinds, flags): the stored word is mapped through
+    # the enum, so its members are one per code, without aliases (two names for one value make two variants indistinguishable) and
+    # without holes below the highest code (a code the format defines but the enum lacks makes the whole block - or file - unreadable)
+    for m_ in prog.modules.values():
+        for k_ in m_.classes.values():
+            if not prog.is_enum(k_) or k_ is bt:
+                continue
+            mem = prog.enum_members(k_)
+            ints = [v_ for v_ in mem.values() if isinstance(v_, int) and not isinstance(v_, bool)]
+            if not mem or len(ints) != len(mem):
+                continue
+            n += 1
+            dup_ = sorted({v_ for v_ in ints if ints.count(v_) > 1})
+            holes = [c_ for c_ in range(0, max(ints) + 1) if c_ not in ints]
+            if dup_ or holes:
+                rep.fail(rule, m_.path.name, k_.name, k_.node, (f"value(s) {dup_} are carried by two members of {k_.name} (aliases); " if dup_ else "") + (f"code(s) {holes} below the highest have no member" if holes else ""),
+                         construct=f"{k_.name} codes once and contiguous")
+            else:
+                rep.ok(rule, f"{k_.name}: {len(ints)} codes 0..{max(ints)}, one member each")
     ub = next((k for m in prog.modules.values() for k in m.classes.values() if k.name == "UnusedBlock"), None)
     if ub is not None:
         owner, v = declared_type(ub)
